@@ -30,19 +30,50 @@ def shout(x):
     return str(x).upper()
 
 
-HOST_GLOBALS = {'GREETING': 'hello', 'shout': shout, 'LIMIT': 10, '__name__': 'c16_host'}
+class Unprintable(Exception):
+    """An exception of the application whose own text cannot be produced."""
+
+    def __str__(self):
+        raise RuntimeError('no text for this error')
+
+
+def boom_unprintable():
+    raise Unprintable()
+
+
+HOST_GLOBALS = {'GREETING': 'hello', 'shout': shout, 'LIMIT': 10, '__name__': 'c16_host',
+                'boom_unprintable': boom_unprintable}
 GOOD = ['name', 'count', 'count + 1', 'person', 'person.name', 'person.age * 2', 'items', 'items[0]', 'len(items)',
         "data['k']", 'GREETING', 'shout(name)', 'LIMIT - count', 'name.upper()', '(count, name)', 'None', 'flag',
         'count > 2', "'lit'", 'name + GREETING', '3.5', 'items[-1]', 'str(person)', 'count if flag else 0',
         # a structure of more nodes than one action may collect: the fields after it find the variable budget used up
-        'big', 'big']
+        'big', 'big',
+        # expressions that contain the characters the format-string syntax gives a meaning of its own (':' and '!')
+        'count != 2', "name.split(':')", "'a:b'", 'name[1:]', 'items[:2]', "count if count != 1 else 'one'"]
 BAD = ['nope', '1/0', 'person.nope', 'items[99]', "data['missing']", 'count +', 'shout()', 'int(name)', 'uuid',
-       'deep', 'len(count)']
+       'deep', 'len(count)', 'boom_unprintable()']
 LITERALS = ['', ' ', 'value=', ' and ', 'x', '100% done ', 'café ', '\U0001F600', ' -> ', '%s %d ', 'a.b[c] ',
             'line1\\n', '"quoted" ', "it's ", '$', '#tag ']
 
 
 BIG = [[[[i * 1000 + j * 100 + k * 10 + m for m in range(10)] for k in range(10)] for j in range(10)] for i in range(3)]
+
+
+WILD = '\x00any text\x00'
+
+
+def same_text(got, exp):
+    """exp may contain WILD where the statement leaves the text of a field open."""
+    if WILD not in exp:
+        return got == exp
+    return isinstance(got, str) and re.fullmatch('.*'.join(re.escape(p) for p in exp.split(WILD)), got, re.S) is not None
+
+
+def starts_with(got, exp):
+    if WILD not in exp:
+        return got.startswith(exp), len(exp)
+    m = re.match('.*?'.join(re.escape(p) for p in exp.split(WILD)), got, re.S)
+    return m is not None, (m.end() if m else 0)
 
 
 def reference_render(template, frame):
@@ -63,7 +94,10 @@ def reference_render(template, frame):
                 text = str(eval(expr, frame.f_globals, frame.f_locals))
                 ok = True
             except BaseException as e:      # noqa
-                text = str(e)
+                try:
+                    text = str(e)
+                except BaseException:      # noqa - an error without a text of its own: any text will do for the field
+                    text = WILD
                 ok = False
             out.append(text)
             fields.append((expr, ok, text))
@@ -88,8 +122,9 @@ class C16(Prop):
             'repeated and adjacent fields, fields at both ends, empty template; log-only and log+snapshot tracepoints, '
             'fire_count 1-3 over 3 hits; non-trivial = >= 1 field and >= 1 literal or escaped brace; distinct = '
             'distinct recipe' % (len(GOOD), len(BAD)))
-    assumptions = ['expressions contain no braces, no top-level ":" or "!" (characters the format syntax reserves)',
-                   'conversion / format-spec syntax ({x!r}, {x:>5}) is not in the statement and not generated',
+    assumptions = ['expressions contain no braces',
+                   'conversion / format-spec syntax ({x!r}, {x:>5}) is not in the statement and not generated as such: '
+                   'a field is the expression between the braces, whatever characters it contains',
                    'values in fields have a working str()']
     quick_examples = 1500
     thorough_examples = 6000
@@ -217,12 +252,13 @@ class C16(Prop):
                     break
                 if permitted:
                     line = got[0]
-                    if not line.startswith(exp_msg):
+                    ok_, end_ = starts_with(line, exp_msg)
+                    if not ok_:
                         out.violate('stock logger: emitted record does not carry the rendered message',
                                     {'expected': exp_msg[:120], 'got': line[:160]})
                         break
-                    if 'tracepoint=tp-log-1' not in line[len(exp_msg):] or not re.search(
-                            r'ctx=[0-9a-f]{8}-[0-9a-f]{4}-', line[len(exp_msg):]):
+                    if 'tracepoint=tp-log-1' not in line[end_:] or not re.search(
+                            r'ctx=[0-9a-f]{8}-[0-9a-f]{4}-', line[end_:]):
                         out.violate('stock logger: emitted record is not labelled with tracepoint id and context id',
                                     {'got': line[-120:]})
                         break
@@ -237,7 +273,7 @@ class C16(Prop):
             if not permitted:
                 continue
             msg, tp_id, ctx_id, _ = new_logs[0]
-            if msg != exp_msg:
+            if not same_text(msg, exp_msg):
                 what = 'prefix' if not msg.startswith('[deep] ') else \
                     'failing field' if any(not ok for _, ok, _ in exp_fields) else \
                     'escaped brace' if ('{{' in template or '}}' in template) else 'field or literal'
@@ -259,7 +295,7 @@ class C16(Prop):
                 if snap.attributes.get('context') != ctx_id:
                     out.violate('context id given to the logger is not the snapshot\'s context id')
                     break
-                if snap.log_msg != exp_msg:
+                if not same_text(snap.log_msg, exp_msg):
                     out.violate('snapshot log message differs from the emitted one', {'snapshot': str(snap.log_msg)[:120]})
                     break
                 lw = [w for w in snap.watches if w.source == 'LOG']
